@@ -269,6 +269,14 @@ struct DoubleCase
          f.solveRight(x, bs);
          std::cout << "SRS x=" << semi(x) << std::endl;
       }
+      else if(cmd == "PREP")
+      {
+         // an update is prepared (solveRight4update) but never carried out: the prepared vector must not outlive a load()
+         DSVectorBase<double> bs = svec(tk);
+         SSVD x(n, tol);
+         f.solveRight4update(x, bs);
+         std::cout << "PREP x=" << semi(x) << std::endl;
+      }
       else if(cmd == "SL")
       {
          DSVectorBase<double> bs = svec(tk);
@@ -556,6 +564,13 @@ struct RationalCase
          SSVR x(n);
          f.solveRight(x, bs);
          std::cout << "SRS x=" << semi(x) << std::endl;
+      }
+      else if(cmd == "PREP")
+      {
+         DSVectorRational bs = svec(tk);
+         SSVR x(n);
+         f.solveRight4update(x, bs);
+         std::cout << "PREP x=" << semi(x) << std::endl;
       }
       else if(cmd == "SL")
       {
